@@ -108,6 +108,144 @@ theorem loopGo_no_continuation (k : ℕ) (cur : C) (rest : List C)
   unfold loopGo
   rw [(findNext_none_iff close startp endp rev (endp cur) rest).2 h]
 
+/-! ## Transfer: a search on curves is simulated by the search on end-point labels -/
+
+section transfer
+
+variable {C C' α α' : Type} (close : α → α → Bool) (startp endp : C → α) (rev : C → C)
+  (close' : α' → α' → Bool) (startp' endp' : C' → α') (rev' : C' → C')
+  (φ : C → C') (lab : α → α') (P : C → Prop)
+
+/-- `φ` (curves ↦ abstract curves) and `lab` (end points ↦ labels) turn the concrete search into the
+    abstract one on the family `P` of curves: end points are labelled consistently, reversal
+    commutes with `φ` and stays in the family, and two end points of the family are close exactly
+    when their labels are. -/
+structure Simulates : Prop where
+  start_eq : ∀ c, P c → startp' (φ c) = lab (startp c)
+  end_eq : ∀ c, P c → endp' (φ c) = lab (endp c)
+  rev_eq : ∀ c, P c → φ (rev c) = rev' (φ c)
+  rev_mem : ∀ c, P c → P (rev c)
+  close_start : ∀ c d, P c → P d → close (endp c) (startp d) = close' (lab (endp c)) (lab (startp d))
+  close_end : ∀ c d, P c → P d → close (endp c) (endp d) = close' (lab (endp c)) (lab (endp d))
+
+variable {close startp endp rev close' startp' endp' rev' φ lab P}
+
+theorem findNext_transfer (h : Simulates close startp endp rev close' startp' endp' rev' φ lab P)
+    (c0 : C) (h0 : P c0) (l : List C) (hl : ∀ c ∈ l, P c) :
+    (findNext close startp endp rev (endp c0) l).map (fun p => (φ p.1, p.2.map φ))
+      = findNext close' startp' endp' rev' (endp' (φ c0)) (l.map φ)
+    ∧ ∀ x r, findNext close startp endp rev (endp c0) l = some (x, r) → P x ∧ ∀ c ∈ r, P c := by
+  induction l with
+  | nil => exact ⟨rfl, fun x r hx => by simp [findNext] at hx⟩
+  | cons c cs ih =>
+    have hc : P c := hl c List.mem_cons_self
+    have hcs : ∀ d ∈ cs, P d := fun d hd => hl d (List.mem_cons_of_mem _ hd)
+    obtain ⟨ih1, ih2⟩ := ih hcs
+    have e1 : close' (endp' (φ c0)) (startp' (φ c)) = close (endp c0) (startp c) := by
+      rw [h.end_eq c0 h0, h.start_eq c hc, h.close_start c0 c h0 hc]
+    have e2 : close' (endp' (φ c0)) (endp' (φ c)) = close (endp c0) (endp c) := by
+      rw [h.end_eq c0 h0, h.end_eq c hc, h.close_end c0 c h0 hc]
+    constructor
+    · simp only [findNext, List.map_cons, e1, e2]
+      by_cases h1 : close (endp c0) (startp c) = true
+      · simp [h1]
+      · by_cases h2 : close (endp c0) (endp c) = true
+        · simp [h1, h2, h.rev_eq c hc]
+        · simp only [h1, h2, Bool.false_eq_true, if_false]
+          rw [← ih1]
+          cases findNext close startp endp rev (endp c0) cs with
+          | none => rfl
+          | some p => rfl
+    · intro x r hx
+      unfold findNext at hx
+      by_cases h1 : close (endp c0) (startp c) = true
+      · simp only [h1, if_true, Option.some.injEq, Prod.mk.injEq] at hx
+        obtain ⟨rfl, rfl⟩ := hx
+        exact ⟨hc, hcs⟩
+      · by_cases h2 : close (endp c0) (endp c) = true
+        · simp only [h1, h2, if_true, Bool.false_eq_true, if_false, Option.some.injEq,
+            Prod.mk.injEq] at hx
+          obtain ⟨rfl, rfl⟩ := hx
+          exact ⟨h.rev_mem c hc, hcs⟩
+        · simp only [h1, h2, Bool.false_eq_true, if_false, Option.map_eq_some_iff] at hx
+          obtain ⟨⟨x', r'⟩, hf, he⟩ := hx
+          simp only [Prod.mk.injEq] at he
+          obtain ⟨rfl, rfl⟩ := he
+          obtain ⟨a, b⟩ := ih2 x' r' hf
+          exact ⟨a, fun d hd => by
+            rcases List.mem_cons.1 hd with rfl | hd
+            · exact hc
+            · exact b d hd⟩
+
+theorem loopGo_transfer (h : Simulates close startp endp rev close' startp' endp' rev' φ lab P)
+    (k : ℕ) (c0 : C) (h0 : P c0) (l : List C) (hl : ∀ c ∈ l, P c) :
+    (loopGo close startp endp rev k c0 l).map (List.map φ)
+      = loopGo close' startp' endp' rev' k (φ c0) (l.map φ) := by
+  induction k generalizing c0 l with
+  | zero => rfl
+  | succ k ih =>
+    obtain ⟨t1, t2⟩ := findNext_transfer h c0 h0 l hl
+    unfold loopGo
+    rw [← t1]
+    cases hf : findNext close startp endp rev (endp c0) l with
+    | none => rfl
+    | some p =>
+      obtain ⟨x, r⟩ := p
+      obtain ⟨px, pr⟩ := t2 x r hf
+      simp only [Option.map_some]
+      rw [← ih x px r pr]
+      cases loopGo close startp endp rev k x r <;> rfl
+
+theorem loopOrder_transfer (h : Simulates close startp endp rev close' startp' endp' rev' φ lab P)
+    (cs : List C) (hcs : ∀ c ∈ cs, P c) :
+    (loopOrder close startp endp rev cs).map (List.map φ)
+      = loopOrder close' startp' endp' rev' (cs.map φ) := by
+  cases cs with
+  | nil => rfl
+  | cons c0 rest =>
+    have h0 : P c0 := hcs c0 List.mem_cons_self
+    have hr : ∀ c ∈ rest, P c := fun c hc => hcs c (List.mem_cons_of_mem _ hc)
+    have hloop : isLoop close' startp' endp' (φ c0 :: rest.map φ) = isLoop close startp endp (c0 :: rest) := by
+      match rest, hr with
+      | [], _ => rfl
+      | [_], _ => rfl
+      | [_, _], _ => rfl
+      | [c1, c2, c3], hr =>
+        have p1 := hr c1 (by simp)
+        have p2 := hr c2 (by simp)
+        have p3 := hr c3 (by simp)
+        simp only [isLoop, List.map_cons, List.map_nil, h.end_eq _ h0, h.end_eq _ p1, h.end_eq _ p2,
+          h.end_eq _ p3, h.start_eq _ h0, h.start_eq _ p1, h.start_eq _ p2, h.start_eq _ p3,
+          h.close_start _ _ h0 p1, h.close_start _ _ p1 p2, h.close_start _ _ p2 p3,
+          h.close_start _ _ p3 h0]
+      | _ :: _ :: _ :: _ :: _, _ => rfl
+    simp only [loopOrder, List.map_cons, hloop]
+    by_cases hl : isLoop close startp endp (c0 :: rest) = true
+    · simp [hl, Except.map]
+    · simp only [hl, Bool.false_eq_true, if_false]
+      rw [← loopGo_transfer h 3 c0 h0 rest hr]
+      cases loopGo close startp endp rev 3 c0 rest <;> rfl
+
+end transfer
+
+/-- The search keeps the first curve as given. -/
+theorem loopOrder_head {C α : Type} (close : α → α → Bool) (startp endp : C → α) (rev : C → C)
+    (cs l : List C) (h : loopOrder close startp endp rev cs = .ok l) : l.head? = cs.head? := by
+  cases cs with
+  | nil => simp only [loopOrder, Except.ok.injEq] at h; subst h; rfl
+  | cons c0 rest =>
+    unfold loopOrder at h
+    simp only [] at h
+    split_ifs at h with hl
+    · simp only [Except.ok.injEq] at h; subst h; rfl
+    · cases hg : loopGo close startp endp rev 3 c0 rest with
+      | error e => rw [hg] at h; simp [Except.map] at h
+      | ok r =>
+        rw [hg] at h
+        simp only [Except.map, Except.ok.injEq] at h
+        subst h
+        rfl
+
 end Splipy.Sections
 
 /-! ## The search on abstract end-point labels (used by `C15_loop_reorder`) -/
@@ -144,3 +282,17 @@ def C15_allFlips : List (List Bool) :=
   [false, true].flatMap (fun a => [false, true].flatMap (fun b => [false, true].flatMap (fun c =>
     [false, true].map (fun d => [a, b, c, d]))))
 
+/-- An accepted search result has four entries and keeps the first input curve. -/
+theorem C15_accepted_ok {cs L : List LCurve} (h : C15_accepted cs = true) (hL : C15_search cs = .ok L) :
+    ∃ c0 c1 c2 c3, L = [c0, c1, c2, c3] ∧ cs.head? = some c0 := by
+  unfold C15_accepted at h
+  rw [hL] at h
+  match L, h with
+  | [c0, c1, c2, c3], h =>
+    simp only [Bool.and_eq_true] at h
+    exact ⟨c0, c1, c2, c3, rfl, by simpa using h.1.1.1.1.1.1⟩
+  | [], h => simp at h
+  | [_], h => simp at h
+  | [_, _], h => simp at h
+  | [_, _, _], h => simp at h
+  | _ :: _ :: _ :: _ :: _ :: _, h => simp at h
